@@ -216,3 +216,23 @@ Fixpoint run_oks (W H : N) (fails : N -> bool) (s : sys) (ops : list (N * op)) :
    draw of the MultiProgress will erase (last_line_count) *)
 Definition kept_plus_live (s : sys) : N :=
   ms_zombie_lines (s_mp s) + target_n (ms_target (s_mp s)).
+
+(* ------------------------------------------------------------------ added in round 3 *)
+(* the subject of a call (the bar it is made on; the MultiProgress for its own calls) cannot draw *)
+Definition subject_hidden (s : sys) (o : op) : bool :=
+  match op_bar o with Some b => bar_hidden s b | None => mp_hidden s end.
+
+(* the calls on bar 0 that finish it: Some k = "finishes with ProgressFinish k" *)
+Definition finishing_op (s : sys) (o : op) : option fin :=
+  match o with
+  | OFinish 0 k => Some k
+  | OFinishUsingStyle 0 => Some (b_on_finish (get_bar s 0))
+  | ODrop 0 => if finished (get_bar s 0) then None else Some (b_on_finish (get_bar s 0))
+  | _ => None
+  end.
+
+(* ProgressBarIter::next when the wrapped iterator returns None (src/iter.rs:120-130):
+   `else if !self.progress.is_finished() { self.progress.finish_using_style() }` *)
+Definition iter_none_step (W H : N) (fails : N -> bool) (s : sys) (now : N) (b : N)
+  : sys * list termop * bool :=
+  if finished (get_bar s b) then (s, [], true) else step W H fails s now (OFinishUsingStyle b).
